@@ -375,6 +375,15 @@ func c07CatRun(r *vlib.Run, i int, fl *fleet, rng *rand.Rand) {
 	if mode == "grep" {
 		bin = "dgrep"
 		args = append(args, "--regex", "#[0-9]*[05]#") // lines whose number ends in 0 or 5
+		// context lines are lines of the same source, too: same oracle
+		switch rng.Intn(4) {
+		case 0:
+			args = append(args, "--before", fmt.Sprint(1+rng.Intn(3)))
+		case 1:
+			args = append(args, "--after", fmt.Sprint(1+rng.Intn(3)))
+		case 2:
+			args = append(args, "--before", "2", "--after", "1")
+		}
 	}
 	var p pacing
 	switch rng.Intn(4) {
